@@ -88,6 +88,13 @@ for pn in ([1, 1], [2, 0], [0, 3], [0, 0]):
     CLI_ARGV.append(['and'] + pn)
     CLI_ARGV.append(['or'] + pn)
 CLI_ARGV += [['true'], ['false']]
+# seeded random command lines: with the same --seed both tools must draw the same graph AND the same formula
+for sd in (0, 1, 7):
+    for cmd in (['tseitin', 'random', 'gnd', 6, 3], ['tseitin', 'randomeven', 'gnp', 5, '.5'], ['tseitin', 'randomodd', 'gnm', 5, 6],
+                ['tseitin', 6, 3], ['php', 4, 3, 2], ['randkcnf', 3, 6, 5], ['randkcnf', '-p', 2, 5, 4], ['randkxor', 2, 5, 3],
+                ['stone', 2, 'pyramid', 2, '--sparse', 1], ['subsetcard', 6], ['kcolor', 2, 'gnm', 5, 4, 'addedges', 1],
+                ['op', 6, 3], ['php', 'glrd', 3, 4, 2, 'addedges', 1], ['pitfall', 4, 2, 2, 2, 2], ['domset', 2, 'gnp', 5, '.4', 'plantclique', 3]):
+        CLI_ARGV.append(['--seed', sd] + cmd)
 
 
 def compare(name, p, A, B, alg, part):
@@ -245,7 +252,7 @@ def run(tier):
         'classes. Self-test: the OPB side with its last row dropped must be told apart.')
     run.bounds = ['library level: the %s boxes of C01, C02, C03 (class stripped)' % tier,
                   'command-line level: %d argv vectors over deterministic graph constructions (complete/grid/torus/empty/shift/path/tree/pyramid)' % len(CLI_ARGV)]
-    run.outside = ['parameters beyond the boxes', 'random families (randkcnf, pitfall with a real RNG) - their draws differ between two runs; pitfall is compared under the graph stub of C03']
+    run.outside = ['parameters beyond the boxes', 'unseeded random families (their draws differ between two runs); seeded ones are compared for three seeds (sampled)']
     run.assumptions = ['z3 Pb constraints are sound', 'OPB rows are read as documented in BaseOPB']
     items = list(points(tier))
     part = run_shards(shard, items)
